@@ -7,10 +7,11 @@ ID = "C36"
 DRIVER = "drv_C36"
 THEOREM_MODS = ["RsassModel.Theorems.C36"]
 LEVEL = "proof"
-# flags of the sibling properties' findings and of the two comment defects repaired by dcd9ee6
-# (same model); each is on only while the implementation still shows it on its probe program
+# flags of the sibling properties' findings (same model); each is on only while the implementation
+# still shows it on its probe program.  C36's own repaired deviations (compressedDropsBang,
+# commentInterpExpandedOnly, fixed by dcd9ee6) are deliberately NOT here: a regression must be reported.
 ALWAYS_QUIRKS = D.LiveFlags(DRIVER, ["closeSwallows", "mediaInMediaNested", "atRootKeepsRule",
-                                     "vendorKeyframesPrefixed", "compressedDropsBang", "commentInterpExpandedOnly"])
+                                     "vendorKeyframesPrefixed"])
 RULE = ("programs with uniquely numbered loud (`/* */`), preserved (`/*!`) and silent (`//`) comments in every statement "
         "position: top level, style rules, nested-property blocks, @media/@supports/unknown at-rules, @at-root, "
         "keyframes, @if/@each bodies, mixin bodies, @content blocks, function bodies, imported and used files; with "
